@@ -451,3 +451,10 @@ package core
 //@ func (*Table).Description
 //@   requires t != nil && t.Indexes != nil && forall n string :: {t.Indexes[n]} n in t.Indexes ==> t.Indexes[n] != nil && allocated(t.Indexes[n]) && IWf(t.Indexes[n])
 //@   ensures[C18] fresh(result) && result != nil && result.TableName == name && result.ItemCount == len(t.SortedKeys)
+
+// ---- C02 / C04: the order of a secondary index's entries -------------------------------------------------
+// entries ({primary key, index key}) are ordered by index key, ties by primary key: a strict total order on the
+// entries of an index (primary keys are unique), so the listing and every page boundary are deterministic
+//@ func (*index).lessKey
+//@   requires i != nil && 0 <= x && x < len(i.sortedRefs) && 0 <= y && y < len(i.sortedRefs)
+//@   ensures[C02,C04] result == (i.sortedRefs[x][1] < i.sortedRefs[y][1] || (i.sortedRefs[x][1] == i.sortedRefs[y][1] && i.sortedRefs[x][0] < i.sortedRefs[y][0]))
